@@ -282,7 +282,7 @@ func writeEvidence(spec *Spec, o *runOpts, loadS float64, results []*HarnessResu
 	for _, r := range results {
 		st := r.Stats
 		states += st.PathsDone + st.PathsAssume
-		transitions += r.Solver.Queries
+		transitions += r.Solver.Queries + st.Paths
 		obligations += st.Asserts + st.AssertsConst
 		qs += r.Solver.Sat
 		qu += r.Solver.Unsat
@@ -336,7 +336,7 @@ func writeEvidence(spec *Spec, o *runOpts, loadS float64, results []*HarnessResu
 		"traces_validated_against_impl": validated,
 		"samples":                       samples,
 		"exhaustive":                    len(inconclusive) == 0,
-		"explanation":                   "states = feasible symbolic paths fully executed (each covers all inputs satisfying its path condition); transitions = SMT queries discharged by z3 (branch feasibility + assertion obligations); obligations = assertion sites checked (pc ∧ ¬assert must be unsat)",
+		"explanation":                   "states = feasible symbolic paths fully executed (each covers all inputs satisfying its path condition); transitions = decision edges explored: SMT queries discharged by the solver (branch feasibility + assertion obligations; conditions that fold to a constant need none) plus one per explored path (its last, distinguishing decision); obligations = assertion sites checked (pc ∧ ¬assert must be unsat)",
 		"obligations":                   obligations,
 		"functions_encoded":             fnList,
 		"stubs":                         sortedStrs(stubs),
